@@ -810,7 +810,11 @@ func writeEvidence(vdir, prop, tier string, seed int, res *CheckResult, wall flo
 	if prop == "C11" && level == "proof" {
 		// the obligations decide only the shared-state half of the property (see MANIFEST level text)
 		level = "other"
-		cov["explanation"] = "all generated obligations discharged; they cover only writes to package-level state, not schedules or races"
+		cov["explanation"] = "all generated obligations discharged; they cover only writes to package-level state and map-order dependence, not schedules or races"
+	}
+	if prop == "C05" && level == "proof" {
+		level = "other"
+		cov["explanation"] = "all generated obligations discharged; they decide IMPL01/IMPL02 and pin the matcher to its own signature model, but not the agreement of that model with go/types identity and method sets (see MANIFEST level text)"
 	}
 	ev["level"] = level
 	cov["obligations"] = total
